@@ -12,7 +12,9 @@
                   (`erase`); `NamedOk`: the side condition under which `forType` does so too.
 
   Not modelled (outside the fragment, excluded by the harness domain as well): nil maps (json.Marshal
-  writes `null`), embedded fields, the `,string` option, Marshaler implementations, []byte.
+  writes `null`), embedded fields (JSV/Spec/EncJsonEmb.lean), the `,string` option, []byte, Marshaler implementations
+  other than "the JSON form is a string" (see "declared (named) types" below: a declared type without marshal methods
+  is its underlying type; a marshaler type whose output is a JSON string is `.named n (.basic "String")`).
   A Go map is represented by its entries in increasing key order, which is the order json.Marshal emits.
 -/
 import JSV.Model.Infer
